@@ -39,7 +39,8 @@ EXPLANATION = (
     "error was already reported (the guarding expression failed to resolve; no label of a labelled case item resolved). "
     "(R9) a pending USE/REFERENCE item is matched under the key it is stored under. (R10) when a look-up wrapper's optional \"search subtypes too\" request parameter is NULL, every reachable call passes NULL for the callee's search-mode parameter (mode parameters discovered as NULL-tested parameters guarding recursive search calls). Not decided: that each malformed schema reaches its detection branch; agreement on warnings."
     " (R11) wherever a DICTdefine is guarded by a test of the result of a DICTlookup made in the same function (SCHEMAdefine_use, SCHEMAdefine_reference, TYPEcreate_user_defined_tag), the look-up reads the table the definition goes into, under the same key: otherwise a conflicting second import is accepted and a repeated identical one is rejected."
-    " (R6N, shared with C06) a local pointer of the resolver is not dereferenced where every reaching definition is the null constant: a tool that crashes while formatting a diagnostic delivers no verdict.")
+    " (R6N, shared with C06) a local pointer of the resolver is not dereferenced where every reaching definition is the null constant: a tool that crashes while formatting a diagnostic delivers no verdict."
+    " (R12) an operand that is resolved in the resolver's silent mode (hint Type_Unknown) is resolved again, on a path that follows, with a hint that is neither Type_Unknown nor taken from the operand itself.")
 
 STAGES = ["EXPRESSparse", "EXPRESSresolve"]
 DUMP_CODES = {"BAIL_OUT", "CORRUPTED_TYPE"}
@@ -705,6 +706,41 @@ def r10_request_respected(prog, res):
     res.floor("R10.request_respected", "wrappers with an optional request parameter", n, 1)
 
 
+def r12_silent_attempt_retried(prog, res):
+    """EXPresolve( x, scope, Type_Unknown ) is the resolver's *silent* mode: an identifier that cannot be found is not reported
+    (resolve.c: `if( typecheck == Type_Unknown ) return;`).  An operand that was tried silently and is still unresolved must be tried
+    again with a hint that cannot be Type_Unknown - i.e. one that does not come from the operand itself, whose own return_type is
+    Type_Unknown exactly when it is unresolved - otherwise an undefined name on that side of the operator is accepted."""
+    from engines import call_args as _args
+    n = 0
+    for f in prog.all_functions():
+        if f.component != "express" or f.cfg is None:
+            continue
+        calls = [c for c in f.calls() if (c.get("fn") or "") in ("EXPresolve", "EXP_resolve") and len(_args(c)) >= 3]
+        silent = [c for c in calls if strip(_args(c)[2]) is not None and
+                  any(y["k"] == "Ref" and y.get("n") == "Type_Unknown" for y in walk(_args(c)[2]))]
+        for c in silent:
+            x = access_path(_args(c)[0]) or expr_str(_args(c)[0])
+            n += 1
+            later = [d for d in calls if d is not c and (access_path(_args(d)[0]) or expr_str(_args(d)[0])) == x and
+                     f.cfg.reaches(f.cfg.locate(c), f.cfg.locate(d))]
+            loud = []
+            for d in later:
+                hint = _args(d)[2]
+                from_self = any((access_path(y) or "").startswith(x + ".") or (access_path(y) or "") == x for y in walk(hint) if y["k"] in ("Member", "Ref"))
+                unknown = any(y["k"] == "Ref" and y.get("n") == "Type_Unknown" for y in walk(hint))
+                if not from_self and not unknown:
+                    loud.append(d)
+            ok = bool(loud)
+            res.add("R12.silent_attempt_retried", "R12|%s|%s|%s" % (f.relfile(), f.name, expr_str(_args(c)[0])), f.where(later[0] if later else c), ok,
+                    "`%s` is resolved silently first and tried again with a hint taken from the other operand" % expr_str(_args(c)[0]) if ok else
+                    "`%s` is resolved in silent mode (Type_Unknown) and %s: an undefined identifier in that position is never reported and "
+                    "the expression is marked resolved" % (expr_str(_args(c)[0]),
+                                                           "the only retry passes `%s`, which is Type_Unknown whenever the operand is still unresolved"
+                                                           % expr_str(_args(later[0])[2]) if later else "never tried again"))
+    res.floor("R12.silent_attempt_retried", "silent resolve attempts", n, 1)
+
+
 def r11_probe_and_define_same_table(prog, res):
     """`look the name up; define it unless an equal entry is already there` only detects a second, conflicting definition (and only
     tolerates a repeated identical one) when the probe reads the table the definition goes into, under the same key.  For every
@@ -754,6 +790,7 @@ def r11_probe_and_define_same_table(prog, res):
 
 
 def run(prog, res, tier):
+    r12_silent_attempt_retried(prog, res)
     r11_probe_and_define_same_table(prog, res)
     t = c20.table(prog, res)
     if t is None:
